@@ -63,7 +63,7 @@ type Mut struct {
 }
 
 // MutOps are the byte-level mutation operators.
-var MutOps = []string{"flip", "trunc", "append", "set", "insert", "delete", "dup", "flip-tail", "trunc-tail"}
+var MutOps = []string{"flip", "trunc", "append", "set", "insert", "delete", "dup", "flip-tail", "trunc-tail", "huge-field", "huge-field-nested"}
 
 // GenMut draws one mutation.
 func GenMut(t *rapid.T, label string) Mut {
@@ -96,6 +96,14 @@ func (m Mut) Apply(b []byte) []byte {
 			return out
 		}
 		out = out[:n-1-(m.Pos%min(n, 64))]
+	case "huge-field":
+		// appends a length-delimited protobuf field (number 1..5) whose length prefix is within 64 of the largest
+		// int64, followed by one byte: index arithmetic on it wraps around
+		out = append(out, hugeField(1+m.Val%5, m.Pos%64)...)
+	case "huge-field-nested":
+		// the same inside a further occurrence of a sub-message field (number 1..5) appended to the message
+		inner := hugeField(1+(m.Val/5)%5, m.Pos%64)
+		out = append(append(out, byte((1+m.Val%5)<<3|2), byte(len(inner))), inner...)
 	case "trunc":
 		if n == 0 {
 			return out
@@ -125,6 +133,13 @@ func (m Mut) Apply(b []byte) []byte {
 		out = append(out[:p], append(append([]byte{}, out[p:]...), out[p:]...)...)
 	}
 	return out
+}
+
+// hugeField encodes tag(field, length-delimited), a varint of MaxInt64-below, and one byte.
+func hugeField(field, below int) []byte {
+	b := []byte{byte(field<<3 | 2)}
+	b = binary.AppendUvarint(b, uint64(1<<63-1)-uint64(below))
+	return append(b, 0x78)
 }
 
 // BigLen draws the length of a large deterministic body: 0 (none) most of the time, otherwise lengths around
